@@ -161,7 +161,7 @@ Proof. intros Hr. exact (reach_B _ _ _ _ _ _ Hr). Qed.
 Lemma reach_outstanding max discov ms ds s ag :
   reachable max discov ms ds s ag ->
   len (m_out s) + len (m_dout s) <= 1 /\ g_conc s <= 1 /\ g_fatal s = false /\
-  (h_destroying s = false -> (s_pending s = true <-> m_out s <> [])).
+  (h_destroying s = false -> (s_pending s = true <-> m_out s <> []) /\ (m_dout s <> [] -> s_rdisc s <> [])).
 Proof.
   intros Hr. destruct (reach_A2 _ _ _ _ _ _ Hr) as [[Hnd HA]|(Hd & (Hp & Hl & Hc & Hf) & _)].
   - destruct HA as (Hout & Hdout & _ & _ & Hc & Hf).
